@@ -143,7 +143,7 @@ pub(crate) mod __verif_tuple_key {
     // every field number below 2^11 (one- and two-byte tags), every type and direction.  Even this did not
     // finish in 25 minutes of CBMC time (iter_mut().for_each / zip / rotate over a symbolic-length prefix),
     // so all field-number harnesses live in the thorough tier.
-    //@ H kind=bounded tier=thorough timeout=14400 bound="field numbers 1..=2047, every key data type and direction" oblig="tuple_key::field_number::roundtrip+discipline (n < 2^11)"
+    //@ H kind=bounded tier=experimental timeout=14400 bound="field numbers 1..=2047, every key data type and direction" oblig="tuple_key::field_number::roundtrip+discipline (n < 2^11)"
     #[kani::proof]
     #[kani::unwind(12)]
     #[kani::stub(prototk::invalid_field_number, stub_ifn)]
@@ -158,29 +158,29 @@ pub(crate) mod __verif_tuple_key {
             fn $name() { field_number_case($t, $d); }
         };
     }
-    //@ H name=fn_unit_fwd kind=complete tier=thorough timeout=14400 oblig="tuple_key::field_number::roundtrip+discipline(unit,forward)"
+    //@ H name=fn_unit_fwd kind=complete tier=experimental timeout=14400 oblig="tuple_key::field_number::roundtrip+discipline(unit,forward)"
     fn_case!(fn_unit_fwd, KeyDataType::unit, Direction::Forward);
-    //@ H name=fn_unit_rev kind=complete tier=thorough timeout=14400 oblig="tuple_key::field_number::roundtrip+discipline(unit,reverse)"
+    //@ H name=fn_unit_rev kind=complete tier=experimental timeout=14400 oblig="tuple_key::field_number::roundtrip+discipline(unit,reverse)"
     fn_case!(fn_unit_rev, KeyDataType::unit, Direction::Reverse);
-    //@ H name=fn_f32_fwd kind=complete tier=thorough timeout=14400 oblig="tuple_key::field_number::roundtrip+discipline(fixed32,forward)"
+    //@ H name=fn_f32_fwd kind=complete tier=experimental timeout=14400 oblig="tuple_key::field_number::roundtrip+discipline(fixed32,forward)"
     fn_case!(fn_f32_fwd, KeyDataType::fixed32, Direction::Forward);
-    //@ H name=fn_f32_rev kind=complete tier=thorough timeout=14400 oblig="tuple_key::field_number::roundtrip+discipline(fixed32,reverse)"
+    //@ H name=fn_f32_rev kind=complete tier=experimental timeout=14400 oblig="tuple_key::field_number::roundtrip+discipline(fixed32,reverse)"
     fn_case!(fn_f32_rev, KeyDataType::fixed32, Direction::Reverse);
-    //@ H name=fn_f64_fwd kind=complete tier=thorough timeout=14400 oblig="tuple_key::field_number::roundtrip+discipline(fixed64,forward)"
+    //@ H name=fn_f64_fwd kind=complete tier=experimental timeout=14400 oblig="tuple_key::field_number::roundtrip+discipline(fixed64,forward)"
     fn_case!(fn_f64_fwd, KeyDataType::fixed64, Direction::Forward);
-    //@ H name=fn_f64_rev kind=complete tier=thorough timeout=14400 oblig="tuple_key::field_number::roundtrip+discipline(fixed64,reverse)"
+    //@ H name=fn_f64_rev kind=complete tier=experimental timeout=14400 oblig="tuple_key::field_number::roundtrip+discipline(fixed64,reverse)"
     fn_case!(fn_f64_rev, KeyDataType::fixed64, Direction::Reverse);
-    //@ H name=fn_s32_fwd kind=complete tier=thorough timeout=14400 oblig="tuple_key::field_number::roundtrip+discipline(sfixed32,forward)"
+    //@ H name=fn_s32_fwd kind=complete tier=experimental timeout=14400 oblig="tuple_key::field_number::roundtrip+discipline(sfixed32,forward)"
     fn_case!(fn_s32_fwd, KeyDataType::sfixed32, Direction::Forward);
-    //@ H name=fn_s32_rev kind=complete tier=thorough timeout=14400 oblig="tuple_key::field_number::roundtrip+discipline(sfixed32,reverse)"
+    //@ H name=fn_s32_rev kind=complete tier=experimental timeout=14400 oblig="tuple_key::field_number::roundtrip+discipline(sfixed32,reverse)"
     fn_case!(fn_s32_rev, KeyDataType::sfixed32, Direction::Reverse);
-    //@ H name=fn_s64_fwd kind=complete tier=thorough timeout=14400 oblig="tuple_key::field_number::roundtrip+discipline(sfixed64,forward)"
+    //@ H name=fn_s64_fwd kind=complete tier=experimental timeout=14400 oblig="tuple_key::field_number::roundtrip+discipline(sfixed64,forward)"
     fn_case!(fn_s64_fwd, KeyDataType::sfixed64, Direction::Forward);
-    //@ H name=fn_s64_rev kind=complete tier=thorough timeout=14400 oblig="tuple_key::field_number::roundtrip+discipline(sfixed64,reverse)"
+    //@ H name=fn_s64_rev kind=complete tier=experimental timeout=14400 oblig="tuple_key::field_number::roundtrip+discipline(sfixed64,reverse)"
     fn_case!(fn_s64_rev, KeyDataType::sfixed64, Direction::Reverse);
-    //@ H name=fn_str_fwd kind=complete tier=thorough timeout=14400 oblig="tuple_key::field_number::roundtrip+discipline(string,forward)"
+    //@ H name=fn_str_fwd kind=complete tier=experimental timeout=14400 oblig="tuple_key::field_number::roundtrip+discipline(string,forward)"
     fn_case!(fn_str_fwd, KeyDataType::string, Direction::Forward);
-    //@ H name=fn_str_rev kind=complete tier=thorough timeout=14400 oblig="tuple_key::field_number::roundtrip+discipline(string,reverse)"
+    //@ H name=fn_str_rev kind=complete tier=experimental timeout=14400 oblig="tuple_key::field_number::roundtrip+discipline(string,reverse)"
     fn_case!(fn_str_rev, KeyDataType::string, Direction::Reverse);
 
     // strings, bounded: ASCII contents (every byte 0x00..0x7f), lengths 0..=3 on both sides
